@@ -9,3 +9,7 @@ tree = ast.parse(open(core.REPO_FILE).read())
 tab = alpha.reference_table(tree)
 json.dump(tab, open(alpha.REF_FILE, "w"), indent=0, sort_keys=True)
 print(f"{len(tab)} functions, {sum(len(v) for v in tab.values())} local names -> {alpha.REF_FILE}")
+import shutil
+from nmfulint import canon
+shutil.copyfile(core.REPO_FILE, canon.REF_FILE)
+print(f"reference tree -> {canon.REF_FILE}")
